@@ -1,10 +1,11 @@
 (* Extract.v — extraction of the executable models to OCaml (ExtrOcamlBasic only).
    Run from /verif/ocaml: coqc -Q ../coq Rux ../coq/Extract.v *)
-From Rux Require Import Base Consts Cache Str Norm Writer.
+From Rux Require Import Base Consts Cache Str Norm Writer Chain Dispatch Reg.
 Require Import ExtrOcamlBasic.
 Extraction "model.ml"
   str_eqb Z.of_nat Z.to_nat
   abort_index any_methods any_match global_vars rest_actions
   inew irun arun
   format_path simple_fmt_path core reg_path request_path is_fixed_path
-  wrequest spec_status spec_events.
+  wrequest spec_status spec_events
+  exec_block rinit den_block handle_request ctx_init fresh_ctx onion apply_all apply_eff prog sort_strs str_leb default_404 default_405.
